@@ -87,18 +87,9 @@ def fresh_value(st, t: T, name: str, fresh=False):
         cols = z3.Int(fresh_name(name + ".cols"))
         st.assume(rows >= t.kw["minrows"], cols >= t.kw["mincols"])
         f = z3.Function(fresh_name(name + ".cell"), z3.IntSort(), z3.IntSort(), sort_of(elem))
-        rowrefs: dict = {}
-
-        def getrow(r, f=f, cols=cols):
-            key = str(z3.simplify(r)) if z3.is_expr(r) else str(r)
-            if key not in rowrefs:
-                rr = r if z3.is_expr(r) else z3.IntVal(r)
-                rowrefs[key] = lazy_alloc(ListObj(length=cols, get=(lambda c, rr=rr: f(rr, c if z3.is_expr(c) else z3.IntVal(c))),
-                                                elem=elem, fresh=fresh))
-            return rowrefs[key]
-        ref = st.alloc(ListObj(length=rows, get=getrow, elem=List(elem), fresh=fresh))
-        st.ghost.setdefault("__matrix__", {})[ref.oid] = (rows, cols, f)
-        return ref
+        from .values import MatrixObj
+        return st.alloc(MatrixObj(rows, cols, (lambda r, c, f=f: f(r if z3.is_expr(r) else z3.IntVal(r), c if z3.is_expr(c) else z3.IntVal(c))),
+                                  fresh=fresh, elem=elem))
     if k == "rec":
         fields = {fn: fresh_value(st, ft, f"{name}.{fn}", fresh) for fn, ft in t.kw["fields"].items()}
         return st.alloc(RecObj(t.kw["cls"], fields, pyclass=t.kw["pyclass"], fresh=fresh, origin=t.kw["origin"]))
